@@ -137,6 +137,8 @@ def inject(cat, dst, scratch, modules, extra_tests=None):
         for u in cat.UNITS:
             if u.get("module") == m and u.get("call"):
                 attrs = "#[kani::proof]\n"
+                if u.get("should_panic"):
+                    attrs += "#[kani::should_panic]\n"
                 if u.get("unwind"):
                     attrs += "#[kani::unwind(%d)]\n" % u["unwind"]
                 if u.get("solver"):
@@ -264,6 +266,13 @@ def triage(u, r):
         return "undecided", "no checks reported (timeout, out of memory or tool error)"
     benign = [c for c in failed if c.get("category") in BENIGN_FAIL_CATEGORIES or "unwinding assertion" in c.get("description", "")]
     real = [c for c in failed if c not in benign]
+    if u.get("should_panic"):
+        # the contract is "this call panics": Kani reports Success iff a panic (and nothing else) occurred
+        if benign:
+            return "undecided", "only unwinding / unsupported-construct checks failed: " + describe(benign[0])
+        if r["status"] == "Success":
+            return "discharged", ""
+        return "violated", [dict(description="expected panic did not occur (or a non-panic failure occurred): " + u.get("desc", ""), category="should_panic", function=u.get("harness"), location={})] + real
     if expect == "fail":
         if real:
             return "canary-ok", describe(real[0])
@@ -439,7 +448,7 @@ def check(prop, tier, only=None, keep=False):
         print("no obligations registered for %s at tier %s" % (prop, tier))
         return 2
     findings = load_findings()
-    known = [k for k in findings.get("known", []) if k["property"] == prop]
+    known = [k for k in findings.get("known", []) if prop in k.get("properties", [k.get("property")])]
     scratch = make_scratch()
     ev_units = []
     pending = []
